@@ -120,8 +120,11 @@ re-raised afterwards; a second panic while unwinding aborts. -/
      | (.ok _, s2) => (.error p, s2)
      | (.error _, s2) => (.error .abort, s2))
 
-@[inline] def dassert (c : Bool) (msg : String := "") : M Unit :=
-  if c then pure () else raise (.assert msg)
+/-- `debug_assert!(c, msg)`.  The message documents which assertion it is; it is not part of the panic
+value (no property speaks about the text of a failed debug assertion, and two bodies that differ only
+in such a text are the same program for every theorem here). -/
+@[inline] def dassert (c : Bool) (_msg : String := "") : M Unit :=
+  if c then pure () else raise (.assert "")
 
 /-! ### run lemmas (one `simp` call evaluates a method body) -/
 section run
@@ -138,7 +141,7 @@ variable {α β : Type}
 @[simp] theorem setBuf_run (b : CB) (s : Sys) : setBuf b s = (.ok (), { s with buf := b }) := rfl
 @[simp] theorem getSys_run (s : Sys) : getSys s = (.ok s, s) := rfl
 @[simp] theorem dassert_true (msg : String) : dassert true msg = (pure () : M Unit) := rfl
-@[simp] theorem dassert_false (msg : String) : dassert false msg = (raise (.assert msg) : M Unit) := rfl
+@[simp] theorem dassert_false (msg : String) : dassert false msg = (raise (.assert "") : M Unit) := rfl
 end run
 
 /-! ### storage primitives -/
